@@ -32,9 +32,12 @@ def scenarios(rng, n, tier):
         pattern = rng.choice(["always", "first", "alternate", "random"])
         culprits = sorted(rng.sample(range(nj), rng.randint(1, nj)))
         scn["exc"] = {str(k): rng.choice(EXC) for k in culprits}
+        logmode = rng.choice(["debug", "debug", "error", "critical", "disabled", "toggle"])
+        scn["logmode"] = logmode
         i = 0
         for o in scn["ops"]:
             if o["op"] == "exec":
+                o["log"] = rng.choice(["debug", "critical", "disabled", "error"]) if logmode == "toggle" else logmode
                 if pattern == "always" or (pattern == "first" and i == 0) or (pattern == "alternate" and i % 2 == 0):
                     o["raises"] = culprits
                 elif pattern == "random":
@@ -63,7 +66,8 @@ def project(line):
     d = split_line(line)
     inv = " ; ".join(sorted(" ".join(x) for x in d["I"]))
     js = " ; ".join(" ".join(x) for x in d["J"])
-    return f"R {' '.join(d['R'])} | I {inv} | J {js} | L {' '.join(d['L'])}"
+    # the record count depends on the user's logging configuration: checked by the Spec, not here
+    return f"R {' '.join(d['R'])} | I {inv} | J {js}"
 
 
 def specs(r):
@@ -82,7 +86,8 @@ def specs(r):
             for (k, _d, _p) in ob["invoked"]:
                 if k in rs:
                     raised[k] = raised.get(k, 0) + 1
-                    total += 1
+                    if o.get("log", "debug") in ("debug", "error"):
+                        total += 1      # a record is produced only while the logger is enabled for ERROR
         for k, v in (ob.get("jobs") or {}).items():
             qs.append((f"spec eq {v[3]} {raised.get(k, 0)}", {"what": "failed_counts_raises", "key": k, "op": i}))
             qs.append((f"spec le {v[3]} {v[2]}", {"what": "failed_le_attempts", "key": k, "op": i}))
@@ -108,9 +113,13 @@ def direct_specs(r):
     return fails
 
 
+def direct_count(r):
+    return sum(1 for ob in r["obs"] if isinstance(ob, dict) and ob.get("_clean") is not None)
+
+
 def classes(r):
     scn = r["scn"]
-    cl = [f"threads:{scn.get('n_threads', 1)}", "logger:user" if scn.get("user_logger") else "logger:default"]
+    cl = [f"threads:{scn.get('n_threads', 1)}", "logger:user" if scn.get("user_logger") else "logger:default", "logmode:" + scn.get("logmode", "debug")]
     for v in (scn.get("exc") or {}).values():
         cl.append("exc:" + v)
     for o, ob in zip(scn["ops"], r["obs"]):
